@@ -502,6 +502,7 @@ extern "C" int __wrap_accept(int fd,struct sockaddr*sa,socklen_t*len){ IGN; SIMF
 	yield(); if(o->kind!=Obj::LISTENER){errno=EINVAL;return -1;}
 	if(P.p_eintr && frng.chance(P.p_eintr)){ S.eintr++; errno=EINTR; return -1; }
 	if(o->backlog.empty()){ if(o->nonblock){errno=EAGAIN;return -1;} block([o]{return !o->backlog.empty();},-1,"accept"); }
+	{ uint64_t i=S.accepts+S.accept_emfile; for(uint32_t x:P.accept_fail_at) if(x==i){ S.accept_emfile++; trace_mix(0xACCE97+i); tracef("accept %d: EMFILE (injected)",fd); errno=EMFILE; return -1; } }
 	auto s=o->backlog.front(); o->backlog.pop_front(); fill_addr(*s,sa,len,true); S.accepts++; s->accepted=true;
 	int n=newfd(s); tracef("accept %d -> %d",fd,n); return n; }
 extern "C" int __wrap_connect(int fd,const struct sockaddr*sa,socklen_t len){ IGN; SIMFD(o,fd); if(!o) return __real_connect(fd,sa,len);
